@@ -26,7 +26,7 @@ ASSUMPTIONS = [
     "Cauchy integral with 96 nodes on a circle of radius 0.4 x distance to the nearest singularity of the exponent",
 ]
 REQUIRED_COUNTERS = ["exponent_real_axis", "exponent_imaginary_axis", "cumulant_checks", "conversion_roundtrips",
-                     "conversion_differences", "martingale_cf", "martingale_direct_drift", "martingale_chain_drift"]
+                     "conversion_differences", "martingale_cf", "martingale_direct_drift", "martingale_chain_drift", "models_reached_by_parameter_update"]
 MIN_NONTRIVIAL = {"quick": 30, "thorough": 300}
 SHARD_TIMEOUT = {"quick": 900, "thorough": 7200}
 
@@ -38,7 +38,10 @@ def gen_cases(tier, seed):
     for i in range(n):
         fam = W.FAMILIES[i % 4]
         br = W.CGMY_BRANCHES[(i // 4) % 5] if fam == "CGMY" else None
-        specs.append(W.gen_model_spec(rng, fam, br, exp=bool(i % 2)))
+        sp = W.gen_model_spec(rng, fam, br, exp=bool(i % 2))
+        if i % 3 == 1:     # parameters reached by assignment + initialisation() from another parameter set of the family
+            sp["start"] = W.gen_model_spec(rng, fam, br, exp=False)
+        specs.append(sp)
     specs.append({"family": "BS", "params": {"sigma": 0.3}, "exp": True, "spot": 100.0, "r": 0.05, "d": 0.02})
     return [{"spec": s, "seed": int(rng.integers(2**31))} for s in specs]
 
@@ -113,12 +116,20 @@ def _lk(dens, rep, fv, alpha, br, z):
     return complex(vr, vi), er + ei
 
 
+def _build(spec, case):
+    return W.build_model_via_update(spec, spec["start"], case["seed"]) if spec.get("start") else W.build_model(spec)
+
+
 def run_case(case, R):
     R.evaluation()
     spec = case["spec"]
     rng = np.random.default_rng(case["seed"])
     label = W.model_label(spec)
-    model = W.build_model(spec)
+    if spec.get("start"):
+        model = W.build_model_via_update(spec, spec["start"], case["seed"])
+        R.hit("models_reached_by_parameter_update")
+    else:
+        model = W.build_model(spec)
     base = model.levy_model if spec.get("exp") else model
     wit = {"spec": spec}
     R.klass(label)
@@ -210,7 +221,7 @@ def run_case(case, R):
     if has_jumps:
         from rpylib.model.levymodel.levymodel import LevyRepresentation
 
-        m2 = W.build_model(spec)
+        m2 = _build(spec, case)
         t2 = (m2.levy_model if spec.get("exp") else m2).levy_triplet
         reps = ["CENTER", "ONEONE", "TILDE"] + (["ZERO"] if fv else [])
         seq = [str(rng.choice(reps)) for _ in range(6)] + [rep0]
@@ -276,7 +287,7 @@ def run_case(case, R):
         if has_jumps:
             from rpylib.model.levymodel.levymodel import LevyRepresentation
 
-            m3 = W.build_model(spec)
+            m3 = _build(spec, case)
             m3.levy_triplet.set_representation(LevyRepresentation.TILDE)
             a_t = float(m3.levy_triplet.a)
             hT = _h("TILDE", fv)
